@@ -132,6 +132,10 @@ theorem feedWith_adv {h : Mem → Sym → Except Err (Mem × Bool)} {m m1 : Mem}
     (h1 : h m (.ch c) = .ok (m1, true)) : feedWith h m c = .ok m1 := by
   simp [feedWith, h1]
 
+theorem feedAllWith_cons_adv {h : Mem → Sym → Except Err (Mem × Bool)} {m m1 : Mem} {c : Char}
+    (h1 : h m (.ch c) = .ok (m1, true)) (cs : List Char) : feedAllWith h (c :: cs) m = feedAllWith h cs m1 := by
+  simp [feedAllWith, feedWith_adv h1]
+
 theorem feedWith_retry {h : Mem → Sym → Except Err (Mem × Bool)} {m m1 : Mem} {c : Char}
     (h1 : h m (.ch c) = .ok (m1, false)) : feedWith h m c =
       (match h m1 (.ch c) with | .error e => .error e | .ok (m2, _) => .ok m2) := by
